@@ -1,5 +1,5 @@
 (* C11 - viewBox scaling follows the SVG preserveAspectRatio rules.  Statements only. *)
-From Plotink Require Import Base.Prelude Base.PyStr Model.VbScale Spec.Svg Proofs.VbScaleProofs.
+From Plotink Require Import Base.Prelude Base.PyStr Model.VbScale Spec.Svg Proofs.VbScaleProofs Proofs.VbParseGen.
 Open Scope Q_scope.
 
 (* numeric core (exact layer): for positive sizes and every alignment x meet/slice the result satisfies the SVG equations *)
@@ -20,6 +20,27 @@ Proof. exact vb_scale_valid. Qed.
    space, comma, tab, comma-with-spaces and newline separators and surrounding whitespace: 8100 strings, kernel-evaluated *)
 Theorem C11_parse_sweep : sweep = true.
 Proof. exact sweep_true. Qed.
+(* ... and for every spelling, not only the swept ones: any letter case of defer, of the alignment and of meet / slice, any non-empty run
+   of white space and commas between the parts, any such run (or none) before and after *)
+Theorem C11_parse_general : forall (A : align) (M : option mos) (use_defer : bool) pre w1 w2 wl d a m,
+  seps_only pre -> seps_only wl -> seps_only w1 -> w1 <> [] -> seps_only w2 -> w2 <> [] ->
+  lower d = t_defer -> lower a = align_txt A ->
+  match M with Some MosOther => False | Some mm => lower m = mos_text mm | None => True end ->
+  let body := (if use_defer then [(d, w1)] else []) ++ match M with Some _ => [(a, w2)] | None => [] end in
+  let tl := match M with Some _ => m | None => a end in
+  let (pa, pm) := parse_par (Some (pre ++ (join body ++ tl) ++ wl)) in
+  align_of pa = A /\ mos_of pm = match M with Some mm => mm | None => Meet end.
+Proof. exact parse_par_general. Qed.
+(* the tokeniser itself, for any number of words *)
+Theorem C11_tokens : forall pre body tl wl, seps_only pre -> wf (body ++ [(tl, [])]) -> seps_only wl ->
+  split_ws (lower (replace1 44%Z [32%Z] (strip (pre ++ (join body ++ tl) ++ wl)))) = map (fun p => lower (fst p)) body ++ [lower tl].
+Proof. exact tokens_of_sentence. Qed.
+(* non-vacuity: "\t DeFeR ,, XMAXymid\n,slice ,\n" *)
+Example C11_parse_general_example :
+  let pa_pm := parse_par (Some [9; 32; 68; 101; 70; 101; 82; 32; 44; 44; 32; 88; 77; 65; 88; 121; 109; 105; 100; 10; 44; 115; 108; 105; 99; 101; 32; 44; 10]%Z) in
+  align_of (fst pa_pm) = AXY AMax AMid /\ mos_of (snd pa_pm) = Slice.
+Proof. vm_compute. split; reflexivity. Qed.
+
 Theorem C11_parse_absent : parse_par None = (t_xmidymid, t_meet) /\ align_of t_xmidymid = AXY AMid AMid /\ mos_of t_meet = Meet.
 Proof. exact parse_absent. Qed.
 
@@ -51,3 +72,5 @@ Print Assumptions C11_parse_absent.
 Print Assumptions C11_identity.
 Print Assumptions C11_nonpositive.
 Print Assumptions C11_no_raise.
+Print Assumptions C11_parse_general.
+Print Assumptions C11_tokens.
